@@ -174,7 +174,7 @@ private:
     // in the class definition of the same name as the specialization (Peter Dimov):
     //    invalid template argument for template parameter 'F', expected a class template
     template <typename T>
-    using dynamic_step_view = typename gil::dynamic_xy_step_type<T>::type;
+    using dynamic_step_view = typename gil::dynamic_xy_step_transposed_type<T>::type;
 
 public:
     using type = mp11::mp_transform<dynamic_step_view, any_image_view<Views...>>;
